@@ -114,7 +114,7 @@ def norm_block(s: str) -> str:
     return textwrap.dedent('\n'.join(lines))
 
 
-LABEL = {'param': ['Parameters'], 'return': ['Returns'], 'raises': ['Raises'], 'note': ['Note', 'Notes'], 'see': ['See Also'],
+LABEL = {'param': ['Parameters'], 'keyword': ['Parameters'], 'yield': ['Yields'], 'warns': ['Warns'], 'return': ['Returns'], 'raises': ['Raises'], 'note': ['Note', 'Notes'], 'see': ['See Also'],
          'author': ['Author', 'Authors'], 'since': ['Present Since'], 'custom': ['Unknown Field: custom']}
 
 
@@ -129,7 +129,7 @@ def oracle_doc(doc: Dict[str, Any], fmt: str, obs: Dict[str, Any]) -> Optional[D
     if obs.get('exc'):
         return {'class': 'exception', 'what': 'rendering raised ' + obs['exc'][:400]}
     toks, pres, sections = split_render(obs['html'])
-    want_toks, want_pres = G.expected(doc['blocks'])
+    want_toks, want_pres = G.doc_expected(doc)
     warned = ' '.join(m for _, m in obs['msgs'])
     if toks != want_toks:
         # locate
@@ -173,9 +173,9 @@ def oracle_doc(doc: Dict[str, Any], fmt: str, obs: Dict[str, Any]) -> Optional[D
         rows = [r for lab, rs in sections if lab in LABEL[kind] for r in rs]
         hit = None
         for r in rows:
-            if kind == 'param' and (r['name'] or '').rstrip(':') != name:
+            if kind in ('param', 'keyword') and (r['name'] or '').rstrip(':') != name:
                 continue
-            if kind == 'raises' and r['type'].strip() != name:
+            if kind in ('raises', 'warns') and r['type'].strip() != name:
                 continue
             if body_tokens(r['body']) == bt:
                 hit = r
@@ -186,7 +186,7 @@ def oracle_doc(doc: Dict[str, Any], fmt: str, obs: Dict[str, Any]) -> Optional[D
             return {'class': 'field-lost', 'what': 'field %s %s with text %s is not shown under %s (sections: %s; warnings: %s)'
                     % (kind, name, bt, LABEL[kind], [(l, [(r['name'], r['type'], body_tokens(r['body'])) for r in rs])
                                                      for l, rs in sections], warned[:200])}
-        if ty is not None and kind in ('param', 'return'):
+        if ty is not None and kind in ('param', 'return', 'keyword', 'yield'):
             if hit['type'].split() != ty:
                 return {'class': 'field-type', 'what': 'type of %s %s shows %r, written %s' % (kind, name, hit['type'], ty)}
     return None
